@@ -130,9 +130,12 @@ def model_check(chk, tier, known):
         jobs.append(("safe",) + job(name, c, sym=True, timeout=3000 if tier != "quick" else 600,
                                     env=JVM_LONG if tier != "quick" else JVM_SHORT))
     # the directed 5-node scenarios (figure 8, split vote + retry, stale response) in the design model
+    # (when no deviation is registered the state-graph dumps of model_behaviours are these very runs and
+    # check the contract themselves)
     for gname, (guide, term, log, ops) in GUIDES.items():
-        jobs.append(("guide",) + job("guide_" + gname, consts(5, [], term, log, ops, 99, guide=guide),
-                                     workers=2))
+        if known:
+            jobs.append(("guide",) + job("guide_" + gname, consts(5, [], term, log, ops, 99, guide=guide),
+                                         workers=2))
     for dev, d in DEVIATIONS.items():
         c = consts(d["n"], [dev], d["term"], d["log"], d["ops"], d["msgs"], toseq=d["toseq"],
                    guide=d.get("guide", "NoGuide"))
@@ -149,7 +152,7 @@ def model_check(chk, tier, known):
         jobs.append(("simulate",) + job("simulate_n5", c, invs=INVS, props=(), simulate="num=1500", depth=90,
                                         seed=chk.seed, timeout=240, env=JVM_LONG))
     # fault-free progress (liveness, no state constraint): design and code-as-is
-    for nm, dv in (("design", []), ("ascode", known)):
+    for nm, dv in (("design", []), ("ascode", known)) if known else (("design", []),):
         c = consts(3, dv, 1, 2 if tier == "quick" else 3, 2 if tier == "quick" else 3, 99, loss=False)
         jobs.append(("live:" + nm,) + job("live_" + nm, c, invs=CLAUSES, props=("Progress",), spec="FFSpec",
                                           constraints=(), workers=2))
@@ -370,7 +373,10 @@ def model_behaviours(chk, tier, known, rng):
     def dump(item):
         name, c, cap = item
         wd = tlc.workdir(f"C11_{name}")
-        cfg = tlc.write_cfg(wd / "g.cfg", constants=c, constraints=["Bounded"])
+        guided = c["Guide"] != "<- NoGuide"
+        cfg = tlc.write_cfg(wd / "g.cfg", constants=c, constraints=["Bounded"],
+                            invariants=INVS if guided and not known else [],
+                            properties=["AppliedInOrder"] if guided and not known else [])
         res = tlc.run(SPEC / "RaftImpl.tla", cfg, label=f"C11_{name}", dump_dot=wd / "g.dot", timeout=1500,
                       env=JVM_SHORT,
                       workers=max(2, tlc.DEFAULT_WORKERS // 2))
@@ -381,9 +387,15 @@ def model_behaviours(chk, tier, known, rng):
     with ThreadPoolExecutor(max_workers=3) as ex:
         dumps = list(ex.map(dump, confs))
     for name, cap, res, g, nn in dumps:
-        chk.add_tlc(f"state graph {name} (Dev=as-code {known})", res, count=False,
-                    note=f"{g.n_edges()} labelled edges")
+        directed = name[2:] in GUIDES
+        chk.add_tlc(f"state graph {name} (Dev=as-code {known})" +
+                    (", contract checked along the directed 5-node scenario" if directed and not known else ""),
+                    res, count=directed and not known, note=f"{g.n_edges()} labelled edges")
         chk.require(g.inits and g.n_edges() > 0, f"empty state graph {name}")
+        if directed:
+            chk.require(res.depth > 15, f"directed scenario {name} is not followed by the model (depth {res.depth})")
+            if not known:
+                chk.require(res.ok, f"RaftImpl with Dev={{}} violates {res.violated} along {name}")
         paths = [(root, p) for root, p in tlc.edge_tour(g, rng=random.Random(rng.random()), max_len=60)]
         chk.extra.setdefault("graph_edges", {})[name] = g.n_edges()
         chk.extra.setdefault("tour_paths", {})[name] = len(paths)
